@@ -40,6 +40,16 @@ Theorem C19_leader_follower : forall all segs,
 Proof. exact leader_follower_thm. Qed.
 Print Assumptions C19_leader_follower.
 
+(* leader-follower STYLE intersections (Fiber.intersection(a, b, style="leader-follower")): the
+   leader presents each of its elements once and looks each of them up in the follower once --
+   also when the coordinate lies beyond the follower's last stored one or the follower is empty;
+   fed the trace of either operand, under every batching, the model has counted after every
+   call the number of elements the leaders held so far.  No side condition. *)
+Theorem C19_leader_follower_style : forall side all d segs,
+  lfs_feed side all d segs = Some (cum 0 (map (total led) segs)).
+Proof. exact lfs_feed_ok. Qed.
+Print Assumptions C19_leader_follower_style.
+
 (* batching: whatever the segmentation of the same sequence of intersections (fiber by
    fiber, one shot, anything in between) the final totals are the per-fiber sums: no
    comparison, run or row is charged across two fibers *)
@@ -118,7 +128,7 @@ Proof. exact swaps_ref_N_total. Qed.
 Print Assumptions C19_swaps_unbounded_defined.
 
 (* the faithful model's observation meets the property oracle for every well-formed case,
-   intersection cases and swap-count cases (integer and unbounded latency) alike *)
+   intersection cases (both styles) and swap-count cases (integer and unbounded latency) alike *)
 Theorem C19_model_meets_spec : forall c,
   c19_wf c = true -> holds c19_checker c (model c19_checker c) = true.
 Proof. exact c19_model_holds. Qed.
@@ -127,9 +137,9 @@ Print Assumptions C19_model_meets_spec.
 (* non-vacuity: a well-formed nest of three intersections (match-ended fiber with a left-over
    tail, an empty operand, an explicit default) under three batchings; totals 4, 4, 6, 5 *)
 Example C19_nonvacuous :
-  let fs := [ {| f_id := [0]; f_a := [(1, 1); (3, 1)]; f_b := [(3, 1); (5, 1)] |};
-              {| f_id := [2]; f_a := []; f_b := [(0, 7); (4, 1)] |};
-              {| f_id := [5]; f_a := [(0, 1); (2, 0); (4, 1)]; f_b := [(0, 1); (4, 1)] |} ] in
+  let fs := [ {| f_id := [0]; f_d := 0; f_a := [(1, 1); (3, 1)]; f_b := [(3, 1); (5, 1)] |};
+              {| f_id := [2]; f_d := 0; f_a := []; f_b := [(0, 7); (4, 1)] |};
+              {| f_id := [5]; f_d := 0; f_a := [(0, 1); (2, 0); (4, 1)]; f_b := [(0, 1); (4, 1)] |} ] in
   let c := CI fs [[1; 1; 1]; [3]; [2; 1]]%nat in
   c19_wf c = true
   /\ tf_feed (map f_id fs) 1 [fs] = Some [4]
